@@ -28,10 +28,17 @@ build() {
 if [ "${1:-}" = "--build-only" ]; then build; exit $?; fi
 PROP="${1:?property id}"; TIER="${2:-quick}"; shift; shift || true
 build || exit 3
+if [ "$PROP" = "C17" ]; then
+  # C17 runs one more replica of every history under the Go race detector: same sources, built with -race
+  (cd harness && go build "${MODFLAG[@]}" -race -tags verif -o "../$BIN.race.tmp.$$" ./cmd/vcheck) 2> bin/build.$$.log
+  if [ $? -ne 0 ]; then echo "BUILD FAILED (-race):"; tail -40 bin/build.$$.log; rm -f bin/build.$$.log "$BIN.race.tmp.$$"; exit 3; fi
+  rm -f bin/build.$$.log; mv -f "$BIN.race.tmp.$$" "$BIN.race"
+  export VERIF_RACE_BIN="$PWD/$BIN.race"
+fi
 if [ "${1:-}" = "--replay" ]; then
   "./$BIN" -replay "$2" -verif "$PWD"; rc=$?
 else
   "./$BIN" -prop "$PROP" -tier "$TIER" -verif "$PWD" "$@"; rc=$?
 fi
-if [ "$REPO" != "/repo" ]; then rm -f "$BIN" harness/go.alt.mod harness/go.alt.sum; fi
+if [ "$REPO" != "/repo" ]; then rm -f "$BIN" "$BIN.race" harness/go.alt.mod harness/go.alt.sum; fi
 exit $rc
